@@ -611,8 +611,30 @@ def make_texts(rng, n_gen, corpus_limit=None, kinds=None):
     return texts
 
 
+def _guard(fn, default):
+    """an observation wraps private methods of a pass; if a harmless rewrite of the pass renamed one, the observation is
+    unavailable (counted), it is not a crash of the check and not a verdict"""
+    def g(*a, **kw):
+        try:
+            return fn(*a, **kw)
+        except AttributeError:
+            UNAVAILABLE[fn.__name__] += 1
+            return default
+    return g
+
+
+UNAVAILABLE = collections.Counter()
+
+
 def run(rng, n_gen, corpus_limit=None, kinds=None) -> dict:
     hist = collections.Counter()
+    UNAVAILABLE.clear()
+    g = globals()
+    for name, default in (("unused_observations", []), ("projection_observations", []), ("duplication_observations", ([], 0)),
+                          ("inline_observations", ([], 0)), ("symmetry_observations", ([], 0)), ("domain_observations", [])):
+        if not getattr(g[name], "_guarded", False):
+            g[name] = _guard(g[name], default)
+            g[name]._guarded = True
     reqs = []
     meta = []
     def want(k):
@@ -643,7 +665,11 @@ def run(rng, n_gen, corpus_limit=None, kinds=None) -> dict:
         for before, aux, upd, ctxp in (projection_observations(_preprocess(_parse(text)), inputs) if want("projection") else []):
             reqs.append(f'(sem_split_cond {before} {aux} {upd} {ctxp})')
             meta.append(("projection", text, (aux, upd), 1))
-        both = cleanup_observations(_preprocess(_parse(text)), inputs, backward=True) if want("cleanup") else None
+        try:
+            both = cleanup_observations(_preprocess(_parse(text)), inputs, backward=True) if want("cleanup") else None
+        except AttributeError:
+            UNAVAILABLE["cleanup_observations"] += 1
+            both = None
         if both is not None and both and isinstance(both[0], tuple):
             (cobs, cother), (bobs, _) = both
         else:
@@ -767,6 +793,8 @@ def run(rng, n_gen, corpus_limit=None, kinds=None) -> dict:
             best = max(flagsets, key=sum)
             hist[f"{kind}: side condition does NOT hold {tuple(int(f) for f in best)}"] += 1
             outside.append(text)
+    for k, v in UNAVAILABLE.items():
+        hist[f"observation unavailable (a wrapped method of the pass is gone): {k}"] += v
     return {"evaluations": len(reqs), "nontrivial": nontrivial, "mismatches": mismatches, "unsupported": unsupported,
             "histogram": dict(hist), "extra_programs": outside}
 
